@@ -99,6 +99,17 @@ class SrcPtr:
         return f'SrcPtr({self.off})'
 
 
+class ArrSlice:
+    """&[T] obtained by unsizing a reference to an array that lives in a cell or a constant (look-up / jump tables)"""
+    __slots__ = ('ref', 'n')
+
+    def __init__(self, ref, n):
+        self.ref, self.n = ref, n
+
+    def __repr__(self):
+        return f'ArrSlice({self.ref!r},{self.n})'
+
+
 class ConstBytes:
     """&'static str / &'static [u8] / &[u8; N] pointing into constant memory"""
     __slots__ = ('data',)
@@ -496,11 +507,13 @@ class Exec:
                      z3.ULE(self.src_base, bvv(1 << 62, U))]
         self.stats = dict(queries=0, cached=0, paths=0, steps=0, solver_s=0.0, max_depth=0, infeasible=0)
         self.step_limit = step_limit
+        self.call_step_limit = 4000 + 1500 * (nbytes if isinstance(nbytes, int) else 8)
         self.fn_seen = set()
         self.builtins_used = set()
         self.trace_hooks = []          # [(regex, callback(ex, fnrec, args))]
         self.events = []
-        self.deadline = (time.time() + time_budget) if time_budget else None
+        # budgets are CPU seconds of this worker process, not wall-clock: a loaded machine must not change a verdict
+        self.deadline = (time.process_time() + time_budget) if time_budget else None
         self.depth = 0
         self.stack = []
         self.path_steps = 0
@@ -616,7 +629,7 @@ class Exec:
             self.pc.append(conds[i])
             self._descend(i)
             return i
-        if self.deadline and time.time() > self.deadline:
+        if self.deadline and time.process_time() > self.deadline:
             raise EngineError('time budget exhausted (inconclusive)')
         # the alternatives are jointly exhaustive and the path condition is satisfiable, so when every other
         # alternative has been refuted the last one needs no query
@@ -928,6 +941,8 @@ class Exec:
                         cur = ('srcbyte', v.off, v.limit)
                 elif isinstance(v, ConstBytes):
                     cur = ('constbytes', v)
+                elif isinstance(v, ArrSlice):
+                    cur = ('cell', v.ref.cell, v.ref.path)
                 elif v is None:
                     raise EngineError('deref of uninitialised pointer')
                 else:
@@ -1379,6 +1394,8 @@ class Exec:
                     return SrcSlice(v.off, pk['len'], v.limit)
                 if isinstance(v, ConstBytes):
                     return v
+                if isinstance(v, Ref) and pk.get('k') == 'array':
+                    return ArrSlice(v, pk['len'])
                 raise EngineError('unsize cast of ' + repr(v))
             if kind == 'Transmute' and tk['k'] == 'int':
                 if tk['bits'] == 64 and isinstance(v, SrcPtr):
@@ -1391,7 +1408,7 @@ class Exec:
             if kind == 'Transmute' and (isinstance(v, (int, bool)) or is_sym(v)):
                 # integer reinterpreted as pointer/NonNull/...: only used to build panic payloads
                 return Opaque('transmuted-int')
-            if isinstance(v, (SrcPtr, Ref, ConstBytes)):
+            if isinstance(v, (SrcPtr, Ref, ConstBytes, ArrSlice)):
                 return v
             if isinstance(v, SrcSlice):
                 # fat -> thin
@@ -1462,6 +1479,8 @@ class Exec:
                     return a.len
                 if isinstance(a, ConstBytes):
                     return len(a.data)
+                if isinstance(a, ArrSlice):
+                    return a.n
                 raise EngineError('PtrMetadata of ' + repr(a))
             if rv[1] == 'Neg':
                 w, _ = self.p.int_info(rv[3])
@@ -1707,7 +1726,20 @@ class Exec:
         key = self.p.roots.get(name)
         if key is None:
             raise EngineError('no root function ' + name)
-        return self.call(key, args)
+        if not name.endswith('::h_next'):
+            return self.call(key, args)
+        # one next() call: its own step budget (a lexer that spins on <= N bytes is reported as a violation with a
+        # model instead of running into the wall-clock budget), and the largest count seen goes to the statistics
+        start = self.path_steps
+        saved = self.step_limit
+        self.step_limit = min(saved, start + self.call_step_limit)
+        try:
+            return self.call(key, args)
+        finally:
+            self.step_limit = saved
+            used = self.path_steps - start
+            if used > self.stats.get('max_call_steps', 0):
+                self.stats['max_call_steps'] = used
 
     def source(self, ln=None):
         """the source as a &str / &[u8] of symbolic length"""
